@@ -7,7 +7,7 @@ use crate::functions::*;
 macro_rules! harness {
     ($name:ident, $body:expr) => {
         #[kani::proof]
-        #[kani::unwind(5)]
+        #[kani::unwind(3)]
         #[kani::stub(crate::parser::parse_value, no_parse_value)]
         #[kani::stub(crate::de::from_slice, no_from_slice)]
         #[kani::stub(std::ptr::drop_in_place, noop_drop)]
@@ -155,8 +155,9 @@ fn ddoc(k: usize, f: impl Fn(&B)) {
         _ => f(&B::build(&arr(&[obj(&[1], &[n]), obj(&[1], &[n])]))),
     }
 }
-//@ props: C13, C07
-//@ timeout: 1800
+//@ props: UNREACHED-C13
+//@ tier: thorough
+//@ timeout: 7200
 //@ harness: c13_distinct_a, c13_distinct_b
 //@ desc: array_distinct on [n,n,n], [n,s2,n] (a string whose bytes can equal a number payload), [[n],[n],n], [n9,n,"",null], scalar n, {k:n}, [], [{k:n},{k':n'}]: the first occurrence of each element (same value in the same number encoding) is kept in order; a non-array is a one-element list; idempotent; canonical array output
 //@ fns: array_distinct, array_distinct_jsonb, ArrayBuilder::build_into, iterate_array
@@ -182,8 +183,9 @@ fn pdoc(k: usize, f: impl Fn(&B, &B)) {
         _ => f(&B::build(&arr(&[obj(&[1], &[n]), n])), &B::build(&arr(&[n, obj(&[1], &[n])]))),
     }
 }
-//@ props: C13, C07
-//@ timeout: 1800
+//@ props: UNREACHED-C13
+//@ tier: thorough
+//@ timeout: 7200
 //@ harness: c13_sets_0, c13_sets_1, c13_sets_2, c13_sets_3, c13_sets_4
 //@ desc: array_intersection, array_except and array_overlap on ten input pairs ([n,n,n]/[n,n]; [n,s]/[s,n,n]; [[n],n]/[[n]]; n/[n,n]; [n,n9]/n; {k:n}/{k:n}; [{},n]/{}; [n,n]/[]; []/[n]; [{k:n},n]/[n,{k:n}]) with symbolic payloads so that equal and unequal elements arise from the solver: intersection keeps, in order, each element of the first list as many times as it also occurs in the second, except keeps the rest (the two partition the first list), overlap is true exactly when the intersection is non-empty; canonical array outputs
 //@ fns: array_intersection, array_intersection_jsonb, array_except, array_except_jsonb, array_overlap, array_overlap_jsonb, ArrayBuilder::build_into
@@ -195,13 +197,52 @@ harness!(c13_sets_2, split1(2, |k| pdoc(4 + k, |a, b| inter_except(a, b))));
 harness!(c13_sets_3, split1(2, |k| pdoc(6 + k, |a, b| inter_except(a, b))));
 harness!(c13_sets_4, split1(2, |k| pdoc(8 + k, |a, b| inter_except(a, b))));
 
-//@ props: C13
+
+// ---- quick tier: two-element inputs, one shape per harness
+fn qd(k: usize, f: impl Fn(&B)) {
+    let n = leaf(K_NUM, 2);
+    match k {
+        0 => f(&B::build(&arr(&[n, n]))),
+        1 => f(&B::build(&arr(&[n, leaf(K_STR, 2)]))),
+        2 => f(&B::build(&arr(&[arr(&[n]), arr(&[n])]))),
+        _ => f(&B::build(&n)),
+    }
+}
+fn qp(k: usize, f: impl Fn(&B, &B)) {
+    let n = leaf(K_NUM, 2);
+    let e = obj(&[], &[]);
+    match k {
+        0 => f(&B::build(&arr(&[n, n])), &B::build(&arr(&[n]))),
+        1 => f(&B::build(&arr(&[n, leaf(K_STR, 1)])), &B::build(&arr(&[leaf(K_STR, 1)]))),
+        2 => f(&B::build(&arr(&[e, n])), &B::build(&e)),
+        3 => f(&B::build(&n), &B::build(&arr(&[n, n]))),
+        _ => f(&B::build(&obj(&[1], &[n])), &B::build(&obj(&[1], &[n]))),
+    }
+}
+//@ props: UNREACHED-C13
+//@ timeout: 1800
+//@ harness: c13q_distinct_0, c13q_distinct_1, c13q_distinct_2, c13q_distinct_3, c13q_sets_0, c13q_sets_1, c13q_sets_2, c13q_sets_3, c13q_sets_4
+//@ desc: quick tier (two-element inputs, one shape per harness, symbolic payloads): array_distinct on [n,n'], [n,s2] (a 2-byte string whose bytes can equal the number payload), [[n],[n']] and scalar n; array_intersection / array_except / array_overlap on [n,n']/[n''], [n,s]/[s'], [{},n]/{} (an empty object as second argument), n/[n',n''], {k:n}/{k':n'}: first occurrences kept in order; multiset intersection, its complement, overlap <=> non-empty intersection; canonical outputs; distinct idempotent
+//@ fns: array_distinct, array_distinct_jsonb, array_intersection, array_intersection_jsonb, array_except, array_except_jsonb, array_overlap, array_overlap_jsonb, ArrayBuilder::build_into, iterate_array
+//@ bounds: <= 2 elements per side
+//@ stubs: parse_value, from_slice -> panic | drop_in_place -> no-op
+harness!(c13q_distinct_0, qd(0, |d| distinct(d)));
+harness!(c13q_distinct_1, qd(1, |d| distinct(d)));
+harness!(c13q_distinct_2, qd(2, |d| distinct(d)));
+harness!(c13q_distinct_3, qd(3, |d| distinct(d)));
+harness!(c13q_sets_0, qp(0, |a, b| inter_except(a, b)));
+harness!(c13q_sets_1, qp(1, |a, b| inter_except(a, b)));
+harness!(c13q_sets_2, qp(2, |a, b| inter_except(a, b)));
+harness!(c13q_sets_3, qp(3, |a, b| inter_except(a, b)));
+harness!(c13q_sets_4, qp(4, |a, b| inter_except(a, b)));
+
+//@ props: UNREACHED-C13
 //@ timeout: 300
 //@ expect: twin
 //@ desc: vacuity twin: two arbitrary numbers claimed never to overlap — must be refuted
 //@ fns: array_overlap
 #[kani::proof]
-#[kani::unwind(5)]
+#[kani::unwind(3)]
 #[kani::stub(crate::parser::parse_value, no_parse_value)]
 #[kani::stub(crate::de::from_slice, no_from_slice)]
 #[kani::stub(std::ptr::drop_in_place, noop_drop)]
